@@ -61,7 +61,7 @@ def runAtom (φ : Faults) (a : Atom) (m : M) : M × Option Exc :=
   | .groupExitCaught => ({ m with ctx := { m.ctx with group := m.tok.group }, groupSaw := some m.caught }, φ .groupExit)
   | .rebindReason => ({ m with reason := m.caught }, none)
   | .stateExit => ({ m with ctx := { m.ctx with state := m.tok.state } }, none)
-  | .metricsExit => ({ m with ctx := { m.ctx with metrics := m.tok.metrics } }, none)
+  | .metricsExit => ({ m with ctx := { m.ctx with metrics := m.tok.metrics } }, φ .metricsExit)   -- the reset comes first; then the scope is finished and its "...finished" line logged – a raising logger fails here
   | .dispEnter => (m, φ .dispEnter)
   | .dispExit => ({ m with dispSaw := some m.reason }, φ .dispExit)
 
@@ -113,11 +113,11 @@ def aenter : Proc :=
 /-- `ScopeContext.__aexit__` (repaired shape): every later cleanup step runs under a `finally`. -/
 def aexit : Proc :=
   tryFinally (tryExcept true (atom dispExit) (atom rebindReason))
-    (tryFinally (atom groupExit) (seq (atom metricsExit) (atom stateExit)))
+    (tryFinally (atom groupExit) (tryFinally (atom metricsExit) (atom stateExit)))
 
 /-- `ScopeContext.__enter__/__exit__` (synchronous scope: no group, no disposables) -/
 def senter : Proc := seq (atom metricsEnter) (atom stateEnter)    -- the metrics context (which refuses re-entrance) first
-def sexit : Proc := seq (atom metricsExit) (atom stateExit)
+def sexit : Proc := tryFinally (atom metricsExit) (atom stateExit)   -- (repaired shape) the state is reset even when the metrics exit raises
 
 /-- `StateContext.__enter__/__exit__` (`ctx.updated`) -/
 def uenter : Proc := atom stateEnter
